@@ -173,7 +173,10 @@ def evaluate(case):
             V.append({"sig": f"C17:{kind}", "msg": msg})
 
     h = VersionedDataHandler.__new__(VersionedDataHandler)
-    filler = _history(1, [3, 1])
+    # the companion unit of two-unit frames: a regular history, a downward revision, an impossible batch - sorted before
+    # or after the unit under test (what is recorded for one unit must not depend on the other)
+    fillers = [_history(1, [3, 1]), _history(1, [5, 3]), _history(1, [9, 3])]
+    assert [reference(f, 100.0)[0] for f in fillers] == ["regular", "irregular", "irregular"] and reference(fillers[1], 100.0)[1] != reference(fillers[2], 100.0)[1]
     for si, seq in enumerate(case["seqs"]):
         hist = _history(case["first"], seq)
         if reference(hist, 100.0)[0] == "invalid":
@@ -185,7 +188,10 @@ def evaluate(case):
                     if recorded == "garbage" and (si + li) % 2:
                         continue  # recorded percents of earlier versions are irrelevant by construction; half the histories cover it
                     two = (si + li) % 3 == 0
-                    hists = [("0100", hist)] + ([("0200", filler)] if two else [])
+                    fk = (si // 3 + li) % 3
+                    hists = [("0100", hist)] + ([("0200" if (si + li) // 3 % 2 == 0 else "0050", fillers[fk])] if two else [])
+                    if two:
+                        cov[f"two_unit_frames_companion_{['regular', 'downward_revision', 'impossible_batch'][fk]}"] += 1
                     df = _frame(hists, latest, recorded, dtype)
                     with warnings.catch_warnings():
                         warnings.simplefilter("ignore")
@@ -267,4 +273,4 @@ def _first_diff(got, ref):
     return m[1][:300] if m else ""
 
 
-REQUIRED_COUNTERS = {"regular_with_interpolation": 1000, "irregular_non-monotone": 500, "irregular_batch_margin": 500}
+REQUIRED_COUNTERS = {"regular_with_interpolation": 1000, "irregular_non-monotone": 500, "irregular_batch_margin": 500, "two_unit_frames_companion_downward_revision": 500, "two_unit_frames_companion_impossible_batch": 500}
